@@ -133,6 +133,15 @@ fn cache_just_used_survives(a: &[String]) -> Result<bool> {
 	Ok(hit.is_some() && still.is_none())
 }
 
+fn pmtiles_dir_from_bytes(a: &[String]) -> Result<bool> {
+	// args: hex bytes — C19/C16: decoding arbitrary bytes as a PMTiles directory returns Ok/Err, never panics
+	use versatiles_container::verif_hooks_pmtiles::EntriesV3;
+	let bytes: Vec<u8> = a.iter().map(|h| u8::from_str_radix(h, 16).expect("hex byte")).collect();
+	let res = EntriesV3::from_blob(&Blob::from(bytes));
+	println!("EntriesV3::from_blob -> {}", match &res { Ok(e) => format!("Ok({} entries)", e.len()), Err(e) => format!("Err({e})") });
+	Ok(false)
+}
+
 fn main() -> Result<()> {
 	let args: Vec<String> = std::env::args().skip(1).collect();
 	if args.is_empty() { eprintln!("usage: verif_replay <case> args…"); std::process::exit(2); }
@@ -142,6 +151,7 @@ fn main() -> Result<()> {
 		match args[0].as_str() {
 			"converter_lookup_vs_stream" => rt.block_on(converter_lookup_vs_stream(rest)),
 			"cache_just_used_survives" => cache_just_used_survives(rest),
+			"pmtiles_dir_from_bytes" => pmtiles_dir_from_bytes(rest),
 			"svarint_roundtrip" => svarint_roundtrip(rest),
 			"pbf_length_prefix" => pbf_length_prefix(rest),
 			"vector_tile_from_bytes" => vector_tile_from_bytes(rest),
